@@ -1,62 +1,96 @@
-/- Lemmas/RoundRobin.lean — RoundRobin call sequences. -/
+/- Lemmas/RoundRobin.lean — RoundRobin call sequences (position + count model; no bound on the number of calls). -/
 import KafkaVerif.Lemmas.BalancerRange
 namespace KV.Balancer
 open KV
 
-theorem chunkU32_small (ch : Int) (h1 : 1 ≤ ch) (h2 : ch < 4294967296) :
-    (chunkU32 ch).toNat = ch.toNat := by
-  unfold chunkU32
-  have : ch % 4294967296 = ch := Int.emod_eq_of_lt (by omega) h2
-  rw [this, ofNat_toNat_small]
-  omega
+/-- successor modulo `L`, the way the code does it: step, then reset when the end of the list is reached -/
+theorem succ_mod_wrap (q L : Nat) (hL : 0 < L) :
+    (q + 1) % L = if q % L + 1 ≥ L then 0 else q % L + 1 := by
+  have hlt : q % L < L := Nat.mod_lt _ hL
+  rw [Nat.add_mod]
+  by_cases h1 : L = 1
+  · subst h1; simp [Nat.mod_one]
+  · have h1' : 1 % L = 1 := Nat.mod_eq_of_lt (by omega)
+    rw [h1']
+    split
+    · have : q % L + 1 = L := by omega
+      rw [this, Nat.mod_self]
+    · exact Nat.mod_eq_of_lt (by omega)
 
-theorem rr_single (rr : RoundRobin) (parts : List Int) (h1 : 1 ≤ rr.chunkSize) (h2 : rr.chunkSize < 4294967296)
-    (hp : parts ≠ []) :
-    rr.balance parts = ({ rr with counter := rr.counter + 1 },
-      parts[(rr.counter.toNat / rr.chunkSize.toNat) % parts.length]?) := by
-  have hpos : 0 < parts.length := List.length_pos_iff.mpr hp
-  have hd : chunkU32 rr.chunkSize ≠ 0 := by
-    intro e
-    have := congrArg UInt32.toNat e
-    rw [chunkU32_small _ h1 h2] at this
-    simp at this; omega
+theorem div_of_decomp (q c r : Nat) (hr : r < c) : (q * c + r) / c = q := by
+  have hc : 0 < c := by omega
+  rw [Nat.add_comm, Nat.mul_comm, Nat.add_mul_div_left _ _ hc, Nat.div_eq_of_lt hr, Nat.zero_add]
+
+/-- the state after `k` calls with chunk `c` on an `L`-element list: `k = q·c + r`, `r ≤ c`, at position `q mod L`
+with `r` messages of the chunk routed (both `(q, c)` and `(q+1, 0)` describe a complete chunk) -/
+def RRAt (ch : Int) (L k : Nat) (rr : RoundRobin) : Prop :=
+  rr.chunkSize = ch ∧ ∃ q r, k = q * ch.toNat + r ∧ r ≤ ch.toNat ∧ rr.index = q % L ∧ rr.count = Int.ofNat r
+
+theorem rr_step (parts : List Int) (hp : parts ≠ []) (ch : Int) (h1 : 1 ≤ ch) (k : Nat) (rr : RoundRobin)
+    (hi : RRAt ch parts.length k rr) :
+    (rr.balance parts).2 = parts[(k / ch.toNat) % parts.length]? ∧ RRAt ch parts.length (k + 1) (rr.balance parts).1 := by
+  obtain ⟨hc, q, r, hk, hr, hidx, hcnt⟩ := hi
+  have hL : 0 < parts.length := List.length_pos_iff.mpr hp
+  have hcpos : 0 < ch.toNat := by omega
+  have hch : (ch.toNat : Int) = ch := Int.toNat_of_nonneg (by omega)
+  have hn1 : ¬ rr.chunkSize < 1 := by omega
   unfold RoundRobin.balance
-  have hc : ¬ rr.chunkSize < 1 := by omega
-  simp only [hc, if_false]
-  have hl : ¬ (chunkU32 rr.chunkSize = 0 ∨ parts.length = 0) := by
-    intro h; cases h with
-    | inl h => exact hd h
-    | inr h => omega
-  simp only [hl, if_false]
-  rw [UInt32.toNat_div, chunkU32_small _ h1 h2]
+  simp only [hn1, if_false]
+  by_cases hfull : r = ch.toNat
+  · -- the chunk is complete: move on
+    have hge : rr.count ≥ rr.chunkSize := by rw [hcnt, hc]; simp only [Int.ofNat_eq_natCast]; omega
+    simp only [hge, if_true]
+    have hkq : k = (q + 1) * ch.toNat := by rw [hk, hfull, Nat.add_mul]; omega
+    have hdiv : k / ch.toNat = q + 1 := by rw [hkq, Nat.mul_div_cancel _ hcpos]
+    have hw := succ_mod_wrap q parts.length hL
+    by_cases hwrap : rr.index + 1 ≥ parts.length
+    · simp only [hwrap, if_true]
+      have : (q + 1) % parts.length = 0 := by rw [hw, ← hidx]; simp [hwrap]
+      refine ⟨by rw [hdiv, this], hc, q + 1, 1, by rw [hkq], by omega, by simp [this], by simp⟩
+    · simp only [hwrap, if_false]
+      have : (q + 1) % parts.length = rr.index + 1 := by rw [hw, ← hidx]; simp [hwrap]
+      refine ⟨by rw [hdiv, this], hc, q + 1, 1, by rw [hkq], by omega, by simp [this], by simp⟩
+  · have hlt : r < ch.toNat := by omega
+    have hnge : ¬ rr.count ≥ rr.chunkSize := by rw [hcnt, hc]; simp only [Int.ofNat_eq_natCast]; omega
+    simp only [hnge, if_false]
+    have hdiv : k / ch.toNat = q := by rw [hk]; exact div_of_decomp q _ r hlt
+    have hin : ¬ rr.index ≥ parts.length := by rw [hidx]; exact Nat.not_le.mpr (Nat.mod_lt _ hL)
+    simp only [hin, if_false]
+    refine ⟨by rw [hdiv, hidx], hc, q, r + 1, by rw [hk]; omega, by omega, hidx, ?_⟩
+    rw [hcnt]; simp only [Int.ofNat_eq_natCast]; omega
 
-theorem rr_run (parts : List Int) (hp : parts ≠ []) (ch : Int) (h1 : 1 ≤ ch) (h2 : ch < 4294967296) :
-    ∀ (n k : Nat) (rr : RoundRobin), rr.chunkSize = ch → (0 < n → rr.counter.toNat = k) → k + n ≤ 4294967296 →
+theorem rr_run (parts : List Int) (hp : parts ≠ []) (ch : Int) (h1 : 1 ≤ ch) :
+    ∀ (n k : Nat) (rr : RoundRobin), RRAt ch parts.length k rr →
       (RoundRobin.run rr parts n).2 =
         (List.range n).map (fun j => parts[((k + j) / ch.toNat) % parts.length]?) := by
   intro n
   induction n with
-  | zero => intro k rr _ _ _; simp [RoundRobin.run]
+  | zero => intro k rr _; simp [RoundRobin.run]
   | succ n ih =>
-    intro k rr hc hk0 hle
-    have hk := hk0 (by omega)
+    intro k rr hi
+    obtain ⟨hres, hnext⟩ := rr_step parts hp ch h1 k rr hi
     unfold RoundRobin.run
-    rw [rr_single rr parts (by omega) (by omega) hp]
     simp only
-    have hk' : 0 < n → (rr.counter + 1).toNat = k + 1 := by
-      intro hn
-      rw [UInt32.toNat_add, hk]
-      have : (1 : UInt32).toNat = 1 := by decide
-      rw [this]
-      exact Nat.mod_eq_of_lt (by omega)
-    rw [ih (k+1) { rr with counter := rr.counter + 1 } hc hk' (by omega)]
+    rw [ih (k + 1) (rr.balance parts).1 hnext, hres]
     rw [List.range_succ_eq_map]
-    simp only [List.map_cons, List.map_map, hc, hk, Nat.add_zero]
+    simp only [List.map_cons, List.map_map, Nat.add_zero]
     congr 1
     apply List.map_congr_left
     intro j _
     simp only [Function.comp]
     have : k + 1 + j = k + (j + 1) := by omega
     rw [this]
+
+theorem rrAt_fresh (ch : Int) (L : Nat) : RRAt ch L 0 (RoundRobin.fresh ch) :=
+  ⟨rfl, 0, 0, by simp, by omega, by simp [RoundRobin.fresh], by simp [RoundRobin.fresh]⟩
+
+theorem rrAt_placed (ch : Int) (h1 : 1 ≤ ch) (calls L : Nat) : RRAt ch L calls (RoundRobin.placed ch calls L) := by
+  have hn : ¬ ch < 1 := by omega
+  have hcpos : 0 < ch.toNat := by omega
+  refine ⟨rfl, calls / ch.toNat, calls % ch.toNat, ?_, ?_, ?_, ?_⟩
+  · rw [Nat.mul_comm]; exact (Nat.div_add_mod calls ch.toNat).symm
+  · exact Nat.le_of_lt (Nat.mod_lt _ hcpos)
+  · simp [RoundRobin.placed, hn]
+  · simp [RoundRobin.placed, hn]
 
 end KV.Balancer
